@@ -11,11 +11,11 @@ MANIFEST = {
     'technique': "must-follow / who-may-write rule on every re-binding of a molar indexer's storage (the cached mass/volume views wrap the old dicts); linear-form "
             'inverse-pair checks for the unit and view conversions; totality of the dimension dispatch; sibling-agreement rule link_with/unlink',
     'text': 'Decides for every history: every statement that re-binds the storage a mass/volume view wraps (indexer.data, data.rows) outside constructors is '
-            "accompanied on every path by dropping or replacing that indexer's cached views; get_flow/set_flow, get_total_flow/set_total_flow and the "
-            'DictionaryView input/output pairs compose to the identity as symbolic forms; the total-flow setters scale the whole molar data by value/current; the '
-            'units dispatch ends in DimensionError and takes each factor from the units object of the matching dimension; the volumetric view recomputes V when its '
-            'cached thermal condition differs and caches a copy; unlink re-binds everything link_with can share, the view cache included. Numerical conversion '
-            'factors (pint) are not decided.',
+            "accompanied on every path by dropping or replacing that indexer's cached views (emptying the cache in place does not count where the same cache object"
+            ' is saved or handed out); get_flow/set_flow, get_total_flow/set_total_flow and the DictionaryView input/output pairs compose to the identity as '
+            'symbolic forms; the total-flow setters scale the whole molar data by value/current; the units dispatch ends in DimensionError and takes each factor '
+            'from the units object of the matching dimension; the volumetric view recomputes V when its cached thermal condition differs and caches a copy; unlink '
+            're-binds everything link_with can share, the view cache included. Numerical conversion factors (pint) are not decided.',
 }
 
 ST = 'thermosteam/_stream.py'
